@@ -239,8 +239,11 @@ pub fn build(t: &Term, w: &W) -> O {
     "acold" => {
       let scripts = t.scripts.clone();
       let t_b = t.b;
+      let nsub = Arc::new(std::sync::atomic::AtomicUsize::new(0));
       Observable::create(move |s: Observer<'static, i64>| {
-        let sc = scripts[0].clone();
+        // the k-th subscription plays the k-th script (the last one from then on)
+        let k = nsub.fetch_add(1, std::sync::atomic::Ordering::SeqCst);
+        let sc = scripts[k.min(scripts.len() - 1)].clone();
         arx_vstd::rt::emit(serde_json::json!({"ev": "acsub", "src": a}).to_string());
         let block_ms = t_b;
         arx_vstd::thread::spawn(move || {
